@@ -247,7 +247,7 @@ pub fn run_rules(tier: &str, seed: u64, model: &mut Model) -> Vec<Suite> {
         out.push(rep);
     }
     // apply
-    let mut rep = Suite::new("applylit", &format!("{n} seeded (rule file, data) pairs: data over the rule alphabet with planted occurrences, rules whose output creates matches for later rules, overlapping literals. Non-trivial: the data changes; distinct by the pair."));
+    let mut rep = Suite::new("applylit", &format!("{n} seeded (rule file, data) pairs: data over the rule alphabet with planted occurrences, rules whose output creates matches for later rules, overlapping literals; plus payloads of 64 KiB and 1 MiB ± 1 (the chunk and streaming thresholds of message.rs) with 2-4 overlapping rules (around the aho-corasick threshold). Non-trivial: the data changes; distinct by the pair."));
     let def = apply_suite();
     let mut cases = Vec::new();
     for _ in 0..n {
@@ -258,6 +258,26 @@ pub fn run_rules(tier: &str, seed: u64, model: &mut Model) -> Vec<Suite> {
         }
         let nt = { let mut cur = d.clone(); for (a, b) in reference_literal_rules(&f) { cur = reference_replace(&cur, &a, &b); } cur != d };
         cases.push((vec![f, d], nt));
+    }
+    // payload sizes around the constants of message.rs (STREAMING_THRESHOLD = 1 MiB, CHUNK_SIZE = 64 KiB) with rule counts around
+    // AHO_CORASICK_THRESHOLD = 3, rules whose patterns overlap (one a prefix of another, listed in either order) planted throughout
+    let big_sizes: &[usize] = if tier == "thorough" { &[65_535, 65_536, 65_537, 1_048_575, 1_048_576, 1_048_577, 1_300_000, 2_097_153] } else { &[65_536, 1_048_575, 1_048_576, 1_300_000] };
+    for (k, &size) in big_sizes.iter().enumerate() {
+        for nrules in [2usize, 3, 4] {
+            let pool: [&[u8]; 5] = [b"hunter2-prod==>PROD_PW", b"hunter2==>PW", b"tok-abc==>TOK", b"abc==>A", b"-prod==>P"];
+            let mut lines: Vec<&[u8]> = pool.iter().cloned().take(nrules).collect();
+            if (k + nrules) % 2 == 1 { lines.reverse(); }
+            let f = [lines.join(&b"\n"[..]), b"\n".to_vec()].concat();
+            let mut d: Vec<u8> = Vec::with_capacity(size);
+            let unit = b"filler text line without secrets 0123456789\n";
+            while d.len() + unit.len() <= size { d.extend_from_slice(unit); }
+            while d.len() < size { d.push(b'.'); }
+            for off in [0usize, 1000, 65_530, size / 2, size.saturating_sub(40)] {
+                let tok: &[u8] = [&b"hunter2-prod"[..], b"hunter2", b"tok-abc"][off % 3];
+                if off + tok.len() <= d.len() { d[off..off + tok.len()].copy_from_slice(tok); }
+            }
+            cases.push((vec![f, d], true));
+        }
     }
     let mut it = cases.into_iter();
     run_suite(&def, &mut it, model, &mut rep);
